@@ -14,7 +14,7 @@ GROUPS = {
     "C10": ("rot", ["rotate", "euler", "quat", "rotaxis"], {"rotateZ", "rotateX", "rotateY", "rotate_euler", "rotate_nautical",
                                                             "rotate_quaternion", "rotate_axis"}),
     "C11": ("space", ["binvec", "scale", "unaryvec", "binnum", "unary"], {"add", "subtract", "scale", "divide", "neg", "dot", "cross",
-                                                                          "unit", "abs", "square"}),
+                                                                          "unit", "abs", "square", "np_sqrt", "np_cbrt", "np_power"}),
 }
 PROOFS = os.path.join(tlc.SPEC_DIR, "proofs", "LawProofs.tla")
 
@@ -47,6 +47,15 @@ def check(prop, tier):
     # the one-call disagreements that are C01's recorded findings are not law violations
     for r in crecs:
         r["tag"] = "case"
+    # ... and on the array backends (NumPy / Awkward layouts, method, operator and ufunc spellings): every element must be
+    # the object backend's value, whose laws were just decided
+    from . import c03x
+
+    ares = c03x.replay([c for c in run["cases"] if c["op"] in ops], full=(tier == "thorough"))
+    for r in ares["records"]:
+        recs.append(r)
+    totals["calls"] += ares["calls"]
+    totals["compared"] += ares["elements"]
     ncases = len([c for c in run["cases"] if c["op"] in ops])
     ccalls = sum(m["calls"] for m in run["modes"].values())
     v = common.Verdicts(prop)
@@ -65,7 +74,7 @@ def check(prop, tier):
         "signature_variants_per_program": variants, "programs_also_compiled_with_numba": nres["compiled"],
         "implementation_calls": totals["calls"] + ccalls,
         "comparisons": totals["compared"] + sum(m["compared"] for m in run["modes"].values()),
-        "one_call_cases": ncases,
+        "one_call_cases": ncases, "array_backend_calls": ares["calls"], "array_elements_compared": ares["elements"],
         "evaluations": totals["calls"] + ccalls,
         "distinct_nontrivial": len(progs) + ncases,
         "rule": ("programs = finished behaviours of spec/Laws.tla (straight-line sequences of public calls ending in law assertions) "
